@@ -13,7 +13,9 @@ Oracle on ALL ordered pairs of the pool (== is evaluated once per ordered pair, 
   visited); a==b => hash(a)==hash(b); == and != are complementary; built twice from the same parameters =>
   equal; same text parsed in two contexts / twice in one context => equal; structural keys that differ in an
   observable payload (an integer, a string, bytes, a float BIT PATTERN, an enum member, a class, a length)
-  => a != b.  The structural key (mc/attrgen.akey) never calls Attribute.__eq__/__hash__ and unifies things
+  => a != b; two values BUILT from descs whose harness-side expected payloads (element bytes / float bits /
+  integers computed from the desc alone, mc/attrgen.expected_payload) differ => a != b, which also sees a
+  constructor that corrupts its input.  The structural key (mc/attrgen.akey) never calls Attribute.__eq__/__hash__ and unifies things
   that are not observable (bool vs int, list vs tuple, dictionary order).
 Signatures:  C08|<class>|<sub type>|<law broken>.
 """
@@ -298,9 +300,22 @@ def same_origin(ra: Any, rb: Any) -> str | None:
     return None
 
 
+def expected_key(d: Any) -> Any:
+    """harness-side EXPECTED payload of a desc (from the desc alone, never from the built object); None if unknown.
+    Leaves: mc/attrgen.expected_payload (dense / dense array / float / integer); arrays and dictionaries of known leaves."""
+    if d[0] == "ArrayAttr":
+        ks = [expected_key(x) for x in d[1]]
+        return None if any(k is None for k in ks) or not ks else ("ArrayAttr", tuple(ks))
+    if d[0] == "DictionaryAttr":
+        ks = [(k, expected_key(v)) for k, v in d[1]]
+        return None if any(k[1] is None for k in ks) or not ks else ("DictionaryAttr", tuple(sorted(ks, key=repr)))
+    return G.expected_payload(d)
+
+
 def check_rows(st: Stats, pool: list[tuple[Any, Any]], rows: range, seed: int = 0) -> None:
     n = len(pool)
     keys = [G.akey(a) for _, a in pool]
+    exps = [expected_key(r[1]) if r[0] == "build" else None for r, _ in pool]
     hashes = [_hash(a) for _, a in pool]
     eqrow: dict[int, list[Any]] = {}
 
@@ -358,6 +373,13 @@ def check_rows(st: Stats, pool: list[tuple[Any, Any]], rows: range, seed: int = 
                     head = f"C08|{ci}|{si}|built-twice-unequal" if why == "built-twice" else f"C08|{why}-unequal"
                     st.violate(head, f"the same {'parameters' if why == 'built-twice' else 'text'} gives two values that are not ==: {str(ai)[:60]}",
                                wit(i, j))
+            # built from observably different data => unequal (catches a constructor that merges its inputs)
+            if exps[i] is not None and exps[j] is not None:
+                st.evaluations += 1
+                if exps[i] != exps[j] and e:
+                    st.violate(f"C08|{ci}|{si}|built-from-different-payloads-equal",
+                               f"{str(ri[1])[:70]} and {str(rj[1])[:70]} are given different data but the built values are ==",
+                               wit(i, j, expected=[repr(exps[i])[:120], repr(exps[j])[:120]]))
             # observable payload difference => unequal
             if not same_key:
                 if e:
